@@ -154,7 +154,24 @@ impl Scheduler for SimScheduler {
                 return None;
             }
             if std::thread::panicking() {
-                // some simulated thread is suspended in the middle of unwinding
+                // The current task is unwinding from a panic of the simulated program (its hook
+                // did not end the process) and reached a synchronisation point, typically the
+                // release of a lock it held. Let it go on without a context switch: destructors
+                // further up its stack may still end the process. (All simulated threads share
+                // one OS thread, so an unwinding task cannot be suspended in favour of another.)
+                let cur = current.map(|c| usize::from(c) as u32);
+                if let Some(c) = cur {
+                    if runnable.iter().any(|t| tid(t) == c) {
+                        st.decisions += 1;
+                        st.now += 1;
+                        if matches!(st.mode, Mode::Replay { .. }) && st.replay_pos < st.replay.len() {
+                            st.replay_pos += 1;
+                        }
+                        st.trace.push(c as u16);
+                        return Some(c);
+                    }
+                }
+                // it blocks while unwinding: nothing further up its stack will run
                 st.stop = Some(StopReason::PanicUnwindAtSyncPoint);
                 return None;
             }
